@@ -9,9 +9,11 @@ FUNCTIONS = [
     "magpylib._src.defaults.defaults_utility:linearize_dict",
     "magpylib._src.defaults.defaults_utility:MagicProperties.update",
     "magpylib._src.style:get_style",
+    "magpylib._src.utility:style_temp_edit",
 ]
 BOUNDS = ["dictionaries with <=2-3 keys drawn by selectors from a 4-name alphabet, depth <=3, leaves from {None,0,1,2}; get_style precedence for the leaves opacity "
-          "(magnet family) and path.line.width (sensor family) with each of the four sources from a 4-value list incl. None; three notations; two successive assignments"]
+          "(magnet family) and path.line.width (sensor family) with each of the four sources from a 4-value list incl. None; three notations; two successive assignments",
+          "style_temp_edit around a real Cuboid with the resolved style of a show() call: show kwarg present / absent, drawing returns or raises, copy on/off (symbolic booleans)"]
 CUTS = []
 ASSUMPTIONS = ["CrossHair 'Confirmed over all paths' within the per-condition timeout"]
 NOT_DECIDED = ["the sweep over all several hundred style leaves and families, aliases, colour / linestyle validators (regex and lookup tables on strings), defaults.reset() "
